@@ -23,6 +23,15 @@ def std(gen, want=SHIPPED, batch=400):
 
 ALL = ("shipped", "custom", "toyint", "toyed", "edgen")
 
+def both(f, g):
+    def h(rng, tier):
+        for x in f(rng, tier):
+            yield x
+        for x in g(rng, tier):
+            yield x
+    return h
+
+
 def plus_traces(f):
     """the property's own slices, then the replay of the library's own test-suite traces"""
     def g(rng, tier):
@@ -38,7 +47,7 @@ REGISTRY = {
     "C17": std(scen_util.gen_C17, ()),
     "C07": std(scen_state.gen_C07, ("shipped", "toyint", "toyed"), batch=3000),
     "C08": plus_traces(std(scen_state.gen_C08)),
-    "C09": std(scen_state.gen_C09),
+    "C09": both(std(scen_state.gen_C09), std(scen_state.gen_C09_lifetimes, ("shipped",))),
     "C10": std(scen_state.gen_C10),
     "C16": std(scen_state.gen_C16, ("shipped", "toyint")),
     "C05": std(scen_group.gen_C05),
